@@ -41,6 +41,58 @@ theorem indexOf_complete {s sub : Bytes} (pre post : Bytes) (h : s = pre ++ sub 
 
 end Casket.Fault
 
+namespace Casket.Fault
+
+/-- `indexOf` returns the FIRST occurrence: the pattern does not occur at any earlier offset -/
+theorem indexOfAux_first (sub : Bytes) : ∀ (s : Bytes) (k i : Nat), indexOfAux sub s k = some i →
+    ∀ j, k ≤ j → j < i → ¬ (sub <+: s.drop (j - k)) := by
+  intro s
+  induction s with
+  | nil =>
+    intro k i h j hkj hji
+    simp only [indexOfAux] at h
+    split at h
+    · have : k = i := by simpa using h
+      omega
+    · simp at h
+  | cons c cs ih =>
+    intro k i h j hkj hji
+    simp only [indexOfAux] at h
+    split at h
+    · have : k = i := by simpa using h
+      omega
+    · rename_i hnp
+      by_cases hjk : j = k
+      · subst hjk
+        simp only [Nat.sub_self, List.drop_zero]
+        intro hp
+        exact hnp (List.isPrefixOf_iff_prefix.mpr hp)
+      · have := ih (k + 1) i h j (by omega) hji
+        have e : j - k = (j - (k + 1)) + 1 := by omega
+        rw [e, List.drop_succ_cons]
+        exact this
+
+theorem indexOf_first {s sub : Bytes} {i : Nat} (h : indexOf s sub = some i) :
+    ∀ j, j < i → ¬ (sub <+: s.drop j) := by
+  intro j hj
+  have := indexOfAux_first sub s 0 i h j (Nat.zero_le _) hj
+  simpa using this
+
+theorem indexOf_at {s sub : Bytes} {i : Nat} (h : indexOf s sub = some i) : sub <+: s.drop i := by
+  have := (indexOfAux_spec sub s 0 i h).2.2
+  simpa using this
+
+theorem indexOf_none {s sub : Bytes} (h : indexOf s sub = none) : ∀ j, ¬ (sub <+: s.drop j) := by
+  intro j hp
+  obtain ⟨t, ht⟩ := hp
+  have hs : s = s.take j ++ sub ++ t := by
+    rw [List.append_assoc, ht, List.take_append_drop]
+  have := indexOf_complete (s.take j) t hs
+  rw [h] at this
+  cases this
+
+end Casket.Fault
+
 namespace Casket.FCGIRoute
 open Casket.Fault Casket.FCGIRouteSpec
 
